@@ -23,7 +23,7 @@ open EphVerif.Providers (Table Loc Holder)
     re-announces a chunk with a TTL it could have computed (`announce_chunk` is only ever called with a
     sanitised TTL) -/
 def OpSys (cfg : Cfg) : Op → Prop
-  | .announce _ _ p _ _ _ _ => p ≠ cfg.self
+  | .announce _ _ _ p _ _ _ _ => p ≠ cfg.self
   | .reannounce _ ttl _ => ttl ≤ cfg.node.maxTtl
   | _ => True
 
@@ -149,29 +149,39 @@ theorem young_store (raw : Raw) (e : Env) {s : State} (h : Young (sysCfg raw e) 
   · exact routesYoung_add h.routes _ _ (by show s.now + _ ≤ s.now + _; omega)
   · exact listYoung_aset h.shards c (by omega)
 
-theorem young_ingest (raw : Raw) (e : Env) {s : State} (h : Young (sysCfg raw e) s) (c : String) (E : Int) :
-    Young (sysCfg raw e) (ingest (sysCfg raw e) s c E) := by
+theorem young_ingest (raw : Raw) (e : Env) {s : State} (h : Young (sysCfg raw e) s) (c : String) (E : Int) (same : Bool) :
+    Young (sysCfg raw e) (ingest (sysCfg raw e) s c E same) := by
   unfold ingest
   split
   · exact h
   · rename_i t ht
-    exact young_acceptManifest h c E (manifest_shard_bounds raw e s.now E t ht).2.1
+    split
+    · exact h
+    · exact young_acceptManifest h c E (manifest_shard_bounds raw e s.now E t ht).2.1
 
-theorem young_announce (raw : Raw) (e : Env) {s : State} (h : Young (sysCfg raw e) s) (c : String) (E : Int) (p : String)
-    (pid : Routing.Id) (addr : String) (ttl : Int) (hint : Option (List String)) :
-    Young (sysCfg raw e) (announce (sysCfg raw e) s c E p pid addr ttl hint) := by
+theorem young_announce (raw : Raw) (e : Env) {s : State} (h : Young (sysCfg raw e) s) (c : String) (E : Int) (same : Bool)
+    (p : String) (pid : Routing.Id) (addr : String) (ttl : Int) (hint : Option (List String)) :
+    Young (sysCfg raw e) (announce (sysCfg raw e) s c E same p pid addr ttl hint) := by
   unfold announce
   split
   · exact h
   · rename_i t ht
-    have h' := young_acceptManifest h c E (manifest_shard_bounds raw e s.now E t ht).2.1
+    have h' : Young (sysCfg raw e) (if (EphVerif.Gen.C05.announceGuardsHeld && !(keepsReadable s c same)) = true then s
+        else acceptManifest (sysCfg raw e) s c E t) := by
+      split
+      · exact h
+      · exact young_acceptManifest h c E (manifest_shard_bounds raw e s.now E t ht).2.1
+    have hn : (if (EphVerif.Gen.C05.announceGuardsHeld && !(keepsReadable s c same)) = true then s
+        else acceptManifest (sysCfg raw e) s c E t).now = s.now := by split <;> rfl
     have hb := (announce_contact_bounds raw e s.now E t p ttl ht).2.1
     simp only [advertised] at hb
+    generalize (if (EphVerif.Gen.C05.announceGuardsHeld && !(keepsReadable s c same)) = true then s
+        else acceptManifest (sysCfg raw e) s c E t) = s1 at h' hn ⊢
     simp only
     split
     · exact h'
-    · exact ⟨h'.recs, locsYoung_addContact h'.locs c p _ hint (by show s.now + _ ≤ s.now + _; omega),
-        routesYoung_add h'.routes _ _ (by show s.now + _ ≤ s.now + _; omega), h'.shards⟩
+    · exact ⟨h'.recs, locsYoung_addContact h'.locs c p _ hint (by rw [hn]; omega),
+        routesYoung_add h'.routes _ _ (by rw [hn]; omega), h'.shards⟩
 
 theorem young_reannounce {cfg : Cfg} {s : State} (h : Young cfg s) (c : String) (ttl : Int) (hint : Option (List String))
     (hle : ttl ≤ cfg.node.maxTtl) : Young cfg (reannounce cfg s c ttl hint) := by
@@ -222,8 +232,8 @@ theorem young_step (raw : Raw) (e : Env) {s : State} (h : Young (sysCfg raw e) s
     have hm : s.now + maxNs (sysCfg raw e) ≤ s.now + d + maxNs (sysCfg raw e) := by omega
     exact ⟨h.recs.mono hm, h.locs.mono hm, h.routes.mono hm, h.shards.mono hm⟩
   | store c ttl hint => exact young_store raw e h c ttl hint
-  | ingest c E => exact young_ingest raw e h c E
-  | announce c E p pid addr ttl hint => exact young_announce raw e h c E p pid addr ttl hint
+  | ingest c E same => exact young_ingest raw e h c E same
+  | announce c E same p pid addr ttl hint => exact young_announce raw e h c E same p pid addr ttl hint
   | reannounce c ttl hint => exact young_reannounce h c ttl hint hw
   | lookup c => exact young_lookup raw e h c
   | probe c => exact young_probe h c
